@@ -51,7 +51,8 @@ type evDesc struct {
 // scenario: everything that determines a case (with the seed of its move choices)
 type scenario struct {
 	Seed      uint64 `json:"seed"`
-	Stream    string `json:"stream"` // plain | faults | restarts | mail | malformed | batch
+	Stream    string `json:"stream"` // plain | faults | restarts | mail | malformed | batch | alias
+	NoCache   bool   `json:"no_event_cache,omitempty"` // PLog event cache off: single reads fill pooled buffers
 	WithMail  bool   `json:"with_mail"`
 	Limit     int    `json:"bundles_limit"`
 	Steps     int    `json:"steps"`
@@ -100,6 +101,9 @@ type driver struct {
 	invoked, dropsSeen int
 	err                error
 	lastR              *gate
+	readQ              []istructs.Offset // offsets the reader got and the operator has not reached yet
+	inInvoke           bool
+	badRows            bool
 	ahead              bool
 	lastNotify         istructs.Offset
 	flTwoSeen          bool
@@ -120,6 +124,7 @@ func (d *driver) borrowFlush() { d.park(&gate{who: 'P', kind: "flush"}) }
 func (d *driver) readOffset() error {
 	g := &gate{who: 'R', kind: "init"}
 	d.mu.Lock()
+	d.readQ = nil
 	d.lastR = g
 	d.mu.Unlock()
 	return d.park(g).before
@@ -142,12 +147,41 @@ func (d *driver) readPLog(from istructs.Offset, count int) error {
 func (d *driver) afterReadPLog(got []istructs.Offset) {
 	d.mu.Lock()
 	d.lastR.got = got
+	d.readQ = append(d.readQ, got...)
+	d.mu.Unlock()
+}
+
+// lookupDescriptor: the operator's isProjectorDefined; the event is the next triggering one the reader got
+func (d *driver) lookupDescriptor(ws istructs.WSID) bool {
+	d.mu.Lock()
+	inside := d.inInvoke
+	var ofs istructs.Offset
+	if !inside {
+		for len(d.readQ) > 0 {
+			o := d.readQ[0]
+			d.readQ = d.readQ[1:]
+			if int(o) >= 1 && int(o) <= len(d.events) && d.events[o-1].Trig {
+				ofs = o
+				break
+			}
+		}
+	}
+	d.mu.Unlock()
+	if inside {
+		return false // a read from inside the projector function (workspace validation of its view)
+	}
+	return d.park(&gate{who: 'P', kind: "desc", ofs: ofs, ws: ws}).before != nil
+}
+func (d *driver) invokeEnd() {
+	d.mu.Lock()
+	d.inInvoke = false
 	d.mu.Unlock()
 }
 func (d *driver) invoke(ofs istructs.Offset) (error, bool) {
 	v := d.park(&gate{who: 'P', kind: "invoke", ofs: ofs})
 	d.mu.Lock()
 	defer d.mu.Unlock()
+	d.inInvoke = true
 	mail := false
 	if int(ofs) >= 1 && int(ofs) <= len(d.events) {
 		mail = d.events[ofs-1].Mail
@@ -223,7 +257,7 @@ func (d *driver) quiesce() {
 		d.release(g, verdict{})
 	}
 	// flush bookkeeping: a flush is over when the operator is not parked inside it any more
-	if p := d.find('P'); p == nil || p.kind == "invoke" || p.kind == "flush" {
+	if p := d.find('P'); p == nil || p.kind == "invoke" || p.kind == "flush" || p.kind == "desc" {
 		d.inFlush = false
 	}
 }
@@ -302,7 +336,7 @@ func (d *driver) check() {
 		d.err = err
 		return
 	}
-	eff, err := d.rig.storedEffects()
+	eff, bad, err := d.rig.storedEffects()
 	if err != nil {
 		d.err = err
 		return
@@ -317,7 +351,12 @@ func (d *driver) check() {
 	d.mu.Lock()
 	ms := append([]istructs.Offset{}, d.mails...)
 	d.mu.Unlock()
-	d.record(fmt.Sprintf("Check %d %s %s", pos, offs(effs), offs(ms)), fmt.Sprintf("check: position=%d rows=%v mails=%v", pos, effs, ms))
+	human := fmt.Sprintf("check: position=%d rows=%v mails=%v", pos, effs, ms)
+	if len(bad) > 0 {
+		d.badRows = true
+		human += fmt.Sprintf(" ROWS WITH ANOTHER EVENT'S CONTENT=%v", bad)
+	}
+	d.record(fmt.Sprintf("Check %d %s %s %s", pos, offs(effs), offs(ms), offs(bad)), human)
 }
 
 // releaseR lets the parked reader perform its call; fault: the call fails instead
@@ -426,6 +465,13 @@ func (d *driver) releaseP(g *gate, fault int) {
 		d.tag("fault:" + g.kind + ":" + verdictCoq(v))
 	}
 	switch g.kind {
+	case "desc":
+		d.inFlush, d.flTwoSeen = false, false
+		present := v.before == nil && v.after == nil
+		if !present {
+			v = verdict{before: errFault}
+		}
+		d.record(fmt.Sprintf("PLookup %d %s", g.ofs, kit.Bool(present)), fmt.Sprintf("operator: workspace descriptor of #%d (ws %d) readable=%v", g.ofs, g.ws, present))
 	case "invoke":
 		d.invoked++
 		d.inFlush, d.flTwoSeen = false, false
@@ -611,7 +657,7 @@ func (d *driver) pick(drain bool) move {
 // another order than the scenario's canonical one (the attempt is discarded and repeated)
 func runOnce(sc scenario, acceptAnyOrder bool) (d *driver, ok bool) {
 	d = &driver{sc: sc, rng: kit.NewRng(sc.Seed), tags: map[string]bool{}}
-	rg, err := newRig(d, rigConf{withMail: sc.WithMail, bundlesLimit: sc.Limit, flushInterval: int64(flushInterval), flushPosEvery: int64(posTicks * flushInterval)})
+	rg, err := newRig(d, rigConf{withMail: sc.WithMail, bundlesLimit: sc.Limit, flushInterval: int64(flushInterval), flushPosEvery: int64(posTicks * flushInterval), noEventCache: sc.NoCache})
 	if err != nil {
 		d.err = err
 		return d, true
